@@ -26,7 +26,7 @@ ASSUMPTIONS = ["following the server's smaller block size in later Block1 reques
                "a non-block answer in the middle of a Block2 transfer may be accepted as the complete representation"]
 EXPECTED_PROBES = ["block1_multi", "block2_multi", "szx_reduced_block1", "szx_reduced_block2", "misbehave_b1_wrong_num",
                    "misbehave_b1_more_on_final", "misbehave_b2_short", "misbehave_b2_skip", "misbehave_b2_etag_change",
-                   "misbehave_b2_etag_presence_change", "block1_acked_without_more_bit", "block1_transfer_rejected_midway", "retransmitted_block", "unfragmented_1124"]
+                   "misbehave_b2_etag_presence_change", "block1_acked_without_more_bit", "block1_transfer_rejected_midway", "unfragmented_request_refused_with_size_hint", "retransmitted_block", "unfragmented_1124"]
 
 LENGTHS = [0, 1, 15, 16, 17, 31, 32, 33, 63, 64, 65, 127, 128, 129, 511, 512, 513, 1023, 1024, 1025, 1124, 1125,
            2047, 2048, 2049, 3000, 5000]
@@ -76,6 +76,8 @@ def gen_transfer(r, i):
         tr["s1_stateless"] = True
     elif r.chance(0.1):
         tr["s1_reject_at"] = r.randrange(0, 3)
+    elif r.chance(0.08):
+        tr["s1_hint"] = True
     return tr
 
 
@@ -252,6 +254,14 @@ class RefServer7959(ScriptedEndpoint):
                 resp["code"] = code_override
             return resp
         # no Block1
+        if spec.get("s1_hint") and METHODS_WITH_BODY.get(msg["code"]) and msg["payload"] and b2 is None:
+            # RFC 7959 section 2.9.3: a request sent in one piece is refused with 4.13 and a Block1 option that says
+            # which block size the server would accept
+            st["rejected"] = self.loop.now
+            st["hinted"] = True
+            self.sim.probe("unfragmented_request_refused_with_size_hint")
+            return {"code": rc.code(4, 13), "options": [(rc.BLOCK1, rc.block_bytes(0, False, min(spec["s1"], 5)))],
+                    "payload": b"smaller blocks please"}
         if METHODS_WITH_BODY.get(msg["code"]) and b2 is not None and rc.block_value(b2)[0] > 0 and not msg["payload"] \
                 and st["repr"] is not None:
             # Block2 follow-up of a PUT/POST/FETCH whose body was delivered before: serve the stored representation
@@ -438,11 +448,18 @@ def execute(sim, scn):
                      and 1 <= e["msg"]["code"] < 32 and e["t"] > st["rejected"] and rc.opt1(e["msg"], rc.BLOCK1) is not None
                      and rc.block_value(rc.opt1(e["msg"], rc.BLOCK1))[0] > 0
                      and e["data"] not in {x["data"] for x in wire if x["t"] <= st["rejected"]}]
+            if st.get("hinted") and rec["done"] and rec["outcome"] == "response" and rec["response"].code.is_successful() \
+                    and st["bodies"] and st["bodies"][-1] == payload:
+                continue  # the client took the hint and repeated the request in blocks: fine
             if not rec["done"]:
                 sim.violation("C05/transfer-never-completed", ident)
             elif rec["outcome"] == "response" and rec["response"].code.is_successful():
                 sim.violation("C05/rejected-transfer-reported-as-success", dict(ident, code=str(rec["response"].code)))
-            elif later and not faults.active(scn.get("net")):
+            elif rec["outcome"] == "error" and not isinstance(rec["exception"], error.Error):
+                # a conforming server said no; the caller gets neither that answer nor an error of the library
+                sim.violation("C05/server-refusal-ends-in-foreign-exception", dict(ident, exc=repr(rec["exception"])[:160],
+                                                                                  hinted=bool(st.get("hinted"))))
+            elif later and not st.get("hinted") and not faults.active(scn.get("net")):
                 sim.violation("C05/blocks-sent-after-rejection", dict(ident, n=len(later)))
             continue
         misbehaving = tr["misbehave"] is not None and st.get("misbehaved")
